@@ -587,7 +587,17 @@ impl Prims {
     /// C19 at store level: long words, long queries, many records, scratch reuse across stores and languages.
     fn unchecked_store(&self, cx: &mut Cx) {
         let corpus = corpus_recs();
+        // several stores live on one thread: the store of the previous round stays alive while the next one is
+        // built, searched and dropped, and is searched again afterwards (scratch shared between stores and
+        // sized or released by a neighbour would show at that search)
+        let mut survivor: Option<(St, String, &'static str)> = None;
         for round in 0..3 {
+            if let Some((pst, pq, plang)) = &survivor {
+                cx.ctx(format!("C19 store: search {:?} on the {}-record {} store of the previous round after its neighbour was dropped", pq, pst.store.records.len(), plang));
+                let _ = pst.search(pq);
+                cx.eval();
+                cx.count("searches on a surviving store after a neighbour store was dropped");
+            }
             let lang = *cx.rng.pick(&LANGS);
             let alpha = gen::lower_alphabet(lang);
             let big = cx.tier != Tier::Miri && cx.rng.chance(1, 12);
@@ -644,6 +654,13 @@ impl Prims {
                     cx.count("type-ahead sequences with adds in between");
                 }
             }
+            if cx.rng.chance(1, 4) && recs.len() >= 2 {
+                // an earlier id added again (same or another title) after younger records
+                let again: Rec = (recs[0].0, if cx.rng.chance(1, 2) { recs[0].1.clone() } else { recs[recs.len() - 1].1.clone() }, 2);
+                st.add(&again);
+                recs.push(again);
+                cx.count("store-level rounds with a record id added twice");
+            }
             let nq = if cx.tier == Tier::Miri { 3 } else { 8 };
             for k in 0..nq {
                 let t = cx.rng.pick(&recs).1.clone();
@@ -667,7 +684,25 @@ impl Prims {
                         cx.sample(|| json!({"stream": "store", "lang": lang, "records": recs.len(), "query": q, "hits": hits.len()}));
                     }
                 }
+                if let (2, Some((pst, pq, _))) = (k, &survivor) {
+                    // interleaved: the older store answers between two searches of the newer one
+                    let _ = pst.search(pq);
+                    cx.eval();
+                }
             }
+            // keep this store (dropping the older one now, whichever is bigger), or drop this one and keep the older
+            let q_again = recs.last().map(|r| r.1.clone()).unwrap_or_default();
+            if survivor.is_none() || cx.rng.chance(1, 2) {
+                survivor = Some((st, q_again, lang));
+            } else {
+                drop(st);
+            }
+        }
+        if let Some((pst, pq, plang)) = &survivor {
+            cx.ctx(format!("C19 store: final search {:?} on the surviving {}-record {} store", pq, pst.store.records.len(), plang));
+            let _ = pst.search(pq);
+            cx.eval();
+            cx.count("searches on a surviving store after a neighbour store was dropped");
         }
     }
 }
@@ -702,7 +737,7 @@ impl Prop for Prims {
             Which::Distance => vec![("exhaustive pairs", 100000, 2000000), ("prefix cells compared", 1000000, 20000000), ("pairs where a discount lowered the distance", 10000, 100000), ("random pairs beyond capacity 20", 500, 5000), ("long pairs with sampled prefix cells", 200, 2000), ("random cases with per-position character classes", 2000, 20000), ("re-classed repeat calls", 10000, 100000), ("hook matrix growths", 3, 3), ("hook matrix max size", 50, 50)],
             Which::Jaccard => vec![("exhaustive pairs", 100000, 1500000), ("pairs with partial overlap", 20000, 200000), ("pairs beyond the initial capacity of 20", 500, 5000), ("random cases over a wide alphabet", 1000, 10000), ("hook jaccard accesses", 100000, 1000000)],
             Which::Index => vec![("prepare calls", 5000, 50000), ("capped calls", 500, 5000), ("calls with ties at the cut", 100, 1000), ("size 0", 300, 3000), ("corpus prepare calls", 200, 2000), ("stores of 1023-5000 records", 50, 500), ("queries with more than 255 distinct grams", 300, 15000), ("calls at the boundary between 'all listed' and 'capped'", 300, 15000), ("session calls on one index", 1000000, 10000000), ("most calls on one index max ", 131000, 131000), ("sessions past 2^17 calls", 2, 20)],
-            Which::Unchecked => vec![("direct distance/similarity calls", 20000, 200000), ("direct calls beyond capacity 20", 5000, 50000), ("store-level searches", 5000, 50000), ("store-level rounds with 127-1500 records", 200, 2000), ("store-level rounds with clear and re-add", 500, 5000), ("type-ahead sequences with adds in between", 1000, 10000), ("direct call sequences with words of 76-420 letters", 200, 2000), ("direct call sequences with arithmetic length relations", 300, 3000), ("store-level queries of 65-200 words", 300, 3000), ("jaccard calls on sets of 256-70000 distinct elements", 20, 200), ("hook matrix accesses", 1000000, 10000000), ("hook matrix growths", 3, 3), ("hook matrix max size", 50, 50), ("hook counter accesses", 10000, 100000), ("hook cost accesses", 100000, 1000000), ("hook jaccard accesses", 10000, 100000)],
+            Which::Unchecked => vec![("direct distance/similarity calls", 20000, 200000), ("direct calls beyond capacity 20", 5000, 50000), ("store-level searches", 5000, 50000), ("store-level rounds with 127-1500 records", 200, 2000), ("store-level rounds with clear and re-add", 500, 5000), ("type-ahead sequences with adds in between", 1000, 10000), ("direct call sequences with words of 76-420 letters", 200, 2000), ("direct call sequences with arithmetic length relations", 300, 3000), ("store-level queries of 65-200 words", 300, 3000), ("searches on a surviving store after a neighbour store was dropped", 3000, 30000), ("jaccard calls on sets of 256-70000 distinct elements", 20, 200), ("hook matrix accesses", 1000000, 10000000), ("hook matrix growths", 3, 3), ("hook matrix max size", 50, 50), ("hook counter accesses", 10000, 100000), ("hook cost accesses", 100000, 1000000), ("hook jaccard accesses", 10000, 100000)],
         }
     }
     #[allow(unused_variables)]
